@@ -491,6 +491,115 @@ def l16(led, rid, ctx):
     led.floor(rid, "trail-position comparisons in the …_at_trail_position queries", n, 3)
 
 
+SELECT_ADAPTORS = ("skip", "take", "step_by", "skip_while", "take_while", "filter", "filter_map", "rev_take",
+                   "nth", "get", "split_at", "chunks", "windows", "first", "last")
+
+
+def l19(led, rid, ctx):
+    """the lazy reason of an element bound ranges over EVERY array position (each contributes either
+    `index != i` or a bound on array[i]): the iteration over the array is not narrowed"""
+    lib = ctx.lib
+    f = lib.method("ElementPropagator", "lazy_explanation", "*")
+    n = 0
+    for g in f.with_closures():
+        R = resolver(g)
+        for c in g.calls:
+            if c.name not in ("extend", "collect", "for_each", "from_iter") and c.name != "map":
+                continue
+            for a in c.args:
+                e = R.operand(a)
+                if "array" not in e.fields():
+                    continue
+                if not any(x.k == "call" and x.a.name in ("iter", "into_iter", "enumerate") for x in e.walk()):
+                    continue
+                n += 1
+                sel = [x.a.name for x in e.walk() if x.k == "call" and x.a.name in SELECT_ADAPTORS]
+                rng = [x for x in e.walk() if x.k == "call" and x.a.name in ("index", "get") and
+                       any(y.k == "agg" and (y.a or "").split("::")[-1].startswith("Range") for y in x.walk())]
+                led.check(not sel and not rng, rid, "element:lazy-reason-covers-all-positions", c.span,
+                          "self.array.iter().enumerate() as a whole",
+                          "ElementPropagator::lazy_explanation narrows the positions it explains with `%s`: the "
+                          "positions left out contribute no `index != i` fact, so the reason no longer implies "
+                          "the bound on the right-hand side" % ((sel or ["a sub-slice"])[0]))
+    led.floor(rid, "iterations over the element array in lazy_explanation", n, 1)
+
+
+def l20(led, rid, ctx):
+    """INCREMENTAL-RESET: a propagator that accumulates un-trailed state in `notify` invalidates it
+    unconditionally in `notify_backtrack` (the store dominates every return)"""
+    lib = ctx.lib
+    n = 0
+    for imp in lib.impls_of("Propagator"):
+        if "/tests" in imp["span"]:
+            continue
+        nf = lib.impl_fn(imp, "notify")
+        nb = lib.impl_fn(imp, "notify_backtrack")
+        if nf is None:
+            continue
+        R = resolver(nf)
+        acc = set()
+        for b in nf.blocks:
+            for st in b["stmts"]:
+                if st["s"] == "assign" and st["dst"]["proj"] and st["rv"]["r"] == "binop" and \
+                        st["rv"]["op"].replace("WithOverflow", "") in ("Add", "Sub"):
+                    names = [x.get("name") for x in st["dst"]["proj"] if "field" in x]
+                    e = R.rvalue(st["rv"])
+                    if names and names[-1] in e.fields():
+                        acc.add(names[-1])
+        for b in nf.blocks:
+            for st in b["stmts"]:
+                if st["s"] == "assign" and st["dst"]["proj"] and st["rv"]["r"] == "use":
+                    names = [x.get("name") for x in st["dst"]["proj"] if "field" in x]
+                    pl = st["rv"]["op"].get("move") or st["rv"]["op"].get("copy")
+                    if names and pl and all("field" in x for x in pl["proj"]):
+                        for d in nf.whole_defs(pl["local"]):
+                            if d[0] == "stmt" and d[3]["s"] == "assign" and d[3]["rv"]["r"] == "binop":
+                                e = R.rvalue(d[3]["rv"])
+                                if names[-1] in e.fields() or (e.k == "proj" and False):
+                                    acc.add(names[-1])
+        acc = {a for a in acc if not a.startswith("num_") or True}
+        if not acc:
+            continue
+        who = (imp.get("self_adt") or "?").rsplit("::", 1)[-1]
+        n += 1
+        if nb is None:
+            led.bad(rid, "%s:no-notify_backtrack" % who, nf.span,
+                    "%s accumulates %s in notify but has no notify_backtrack: the sums are stale after "
+                    "backtracking" % (who, sorted(acc)))
+            continue
+        cfg = nb.cfg
+        Rb = resolver(nb)
+        undo_blocks, flag_blocks = [], []
+        for b in nb.blocks:
+            for st in b["stmts"]:
+                if st["s"] != "assign" or not st["dst"]["proj"]:
+                    continue
+                names = [x.get("name") for x in st["dst"]["proj"] if "field" in x]
+                if not names:
+                    continue
+                e = Rb.rvalue(st["rv"])
+                if names[-1] in acc and not (e.k == "const"):
+                    undo_blocks.append(b["id"])
+                if e.k == "const" and e.a == 1 and names[-1] not in acc:
+                    flag_blocks.append(b["id"])
+                if e.k == "const" and names[-1] in acc:
+                    flag_blocks.append(b["id"])       # a plain reset of the accumulated field
+        rets = cfg.returns
+        ok = bool(undo_blocks) and all(
+            ub in flag_blocks or not cfg.reaches(ub, rets, avoid=flag_blocks, strict=True) or
+            any(cfg.dominates(fb, ub) for fb in flag_blocks)
+            for ub in undo_blocks)
+        if not undo_blocks:
+            ok = any(all(cfg.dominates(fb, r) for r in rets) for fb in flag_blocks)
+        led.check(ok, rid, "%s:notify_backtrack-invalidates-unconditionally" % who, nb.span,
+                  "every undo of the fixed-term counter also marks the accumulated sum as outdated",
+                  "%s accumulates %s incrementally in notify, but notify_backtrack undoes an assignment without "
+                  "always invalidating the accumulated sum: after an assign-then-undo the stale sum is used, a "
+                  "wrong value is removed with a reason that does not imply it and a real violation goes "
+                  "unnoticed" % (who, sorted(acc)))
+    led.floor(rid, "propagators with accumulated un-trailed state", n, 1)
+
+
 def l12(led, rid, ctx):
     """CACHE-INVALIDATION: the cumulative propagation handler caches the explanation of `the
     current profile`; every way from one use of the cache to the next that passes the point where
@@ -583,3 +692,5 @@ def run(ctx, led):
     run_rule(led, "L17", "lazy reasons of reified propagators keep the reification literal (shared with C09-R7)", C09.r7, ctx)
     from . import C08 as _C08
     run_rule(led, "L18", "WITNESS-POINT of pointwise hole explanations (shared with C08-H11)", _C08.h11, ctx)
+    run_rule(led, "L19", "the lazy element reason ranges over every array position", l19, ctx)
+    run_rule(led, "L20", "INCREMENTAL-RESET: accumulated un-trailed propagator state is invalidated unconditionally on backtrack", l20, ctx)
